@@ -221,6 +221,7 @@ var aliasFamilies = [][]string{
 	{"ident(jso.s)", "ident(jso.s2)", "ident(jso.bigs)", "konst()"},
 	{"jso.nul|default(\"dflt\")", "jso.missing|default(jso.s)", "jso.e|default(ivar)", "jso.z|default(uvar)"},
 	{"jso.n", "jso.big", "jso.s", "jso.bigs", "jso.t"},
+	{`"abcdef"`, `"xyz"`, `"0123456789abcdef0123456789abcdefX"`, `""`, `'q'`},
 }
 var textDsts = []string{"obj.Id", "obj.Name", "ts.S", "ts.B", "obj.Finance.History[0].Comment", "obj.Finance.History[1].Comment"}
 
@@ -229,7 +230,7 @@ func genIndependent(r *prng, st map[string]int, gi int) ([]string, *docInfo, []S
 	g := &pgen{r: r, d: d, opts: genOpts{floats: false, userFns: true}, stats: st}
 	g.statics = defaultStatics(r)
 	if gi%2 == 0 {
-		fam := append([]string{}, aliasFamilies[(gi/2)%len(aliasFamilies)]...)
+		fam := append([]string{}, aliasFamilies[(gi/4)%len(aliasFamilies)]...)
 		ds := append([]string{}, textDsts...)
 		for i := len(fam) - 1; i > 0; i-- {
 			j := r.intn(i + 1)
@@ -242,7 +243,18 @@ func genIndependent(r *prng, st map[string]int, gi int) ([]string, *docInfo, []S
 		n := 2 + r.intn(2)
 		var rules []string
 		for i := 0; i < n; i++ {
-			rules = append(rules, ds[i]+" = "+fam[i])
+			rule := ds[i] + " = " + fam[i]
+			if i == 0 {
+				// the first rule inside a block now and then: what it wrote must
+				// survive the end of the block (and of each iteration)
+				switch (gi / 4) % 3 {
+				case 1:
+					rule = "for w0 := 5; w0 < 7; w0++ {\n" + rule + "\n}"
+				case 2:
+					rule = "if jso.t == true {\n" + rule + "\n}"
+				}
+			}
+			rules = append(rules, rule)
 		}
 		st["one mechanism, several text destinations"]++
 		return rules, d, g.statics
